@@ -18,7 +18,7 @@ from .core import RuleResult
 from .facts import walk, strip, peel_refs, pat_bindings, children, fn_key, fn_loc, fn_file
 
 RAW = {"as_slice_memory_order", "as_slice_memory_order_mut", "into_raw_vec", "into_raw_vec_and_offset", "as_ptr", "as_mut_ptr"}
-SENSITIVE = {"chunks", "chunks_exact", "chunks_mut", "chunks_exact_mut", "rchunks", "enumerate", "zip", "split_at", "split_at_mut",
+SENSITIVE = {"for:ordered-sink", "chunks", "chunks_exact", "chunks_mut", "chunks_exact_mut", "rchunks", "enumerate", "zip", "split_at", "split_at_mut",
              "windows", "get", "get_mut", "get_unchecked", "swap", "rotate_left", "rotate_right", "to_vec", "truncate", "drain",
              "split_off", "position", "rposition", "first", "last", "skip", "take", "step_by", "nth", "offset", "add", "copy_from_slice",
              "clone_from_slice", "swap_with_slice", "from_shape_vec", "into_shape", "into_shape_with_order", "from_vec", "extend_from_slice", "append"}
@@ -155,7 +155,7 @@ def _uses_of(fn, locals_):
                     if k == "Call" and any(x is child for x in a["args"]):
                         f = strip(a["f"])
                         nm = (fn["crate"].dfn(f.get("def")) or {}).get("name") if f.get("k") == "Path" else None
-                        if nm in ("Some", "Ok", "Borrowed", "Owned") and len(a["args"]) == 1:
+                        if nm in ("Some", "Ok", "Borrowed", "Owned", "Left", "Right") and len(a["args"]) == 1:
                             child = a         # a wrapper that keeps the sequence as it is
                             continue
                         names.add("arg:" + (nm or "?"))
@@ -166,6 +166,9 @@ def _uses_of(fn, locals_):
                         indexed = True
                         child = a
                         continue
+                    if k == "Ret" and a.get("e") is child:
+                        names.add("escapes")
+                        break
                     if k in ("LetStmt", "Let") and a.get("init") is child:
                         for b in pat_bindings(a["pat"]):
                             if b["local"] not in seen:
@@ -180,10 +183,98 @@ def _uses_of(fn, locals_):
                                     frontier.add(b["local"])
                         break
                     break
+                else:
+                    names.add("escapes")       # the value of the function body
     return names, indexed
 
 
-def sites(fn):
+def _consumption(fn, c, n, anc):
+    """how the value of node `n` (a raw buffer, or a call that returns one) is consumed in fn: (names, indexed, escapes)"""
+    bound = set()
+    child = n
+    escapes = False
+    names = set()
+    indexed = False
+    tup_idx = None
+    for a in reversed(anc):
+        k = a.get("k")
+        if k in ("Ref", "Semi") or (k == "Unary" and a["op"] == "*") or (k == "Block" and not a["stmts"] and a.get("e") is child):
+            child = a
+            continue
+        if k == "MethodCall" and a["recv"] is child:
+            names.add(a["name"])
+            child = a
+            continue
+        if k == "Tup" and tup_idx is None and any(x is child for x in a.get("es", [])):
+            # `match (x.as_slice_memory_order(), y.as_slice_mut()) { (Some(a), Some(b)) => .. }`: follow the component
+            tup_idx = next(i for i, x in enumerate(a["es"]) if x is child)
+            child = a
+            continue
+        if k in ("LetStmt", "Let") and a.get("init") is child:
+            for b in pat_bindings(_tuple_component(a["pat"], tup_idx)):
+                bound.add(b["local"])
+            break
+        if k == "Match" and a["scrut"] is child:
+            for arm in a["arms"]:
+                for b in pat_bindings(_tuple_component(arm["pat"], tup_idx)):
+                    bound.add(b["local"])
+            break
+        if k == "Index" and a["e"] is child:
+            indexed = True
+            child = a
+            continue
+        if k == "Call" and any(x is child for x in a["args"]):
+            f = strip(a["f"])
+            nm = (c.dfn(f.get("def")) or {}).get("name") if f.get("k") == "Path" else None
+            if nm in ("Some", "Ok", "Borrowed", "Owned"):
+                child = a
+                continue
+            if nm == "into_iter":
+                loop = next((x for x in reversed(anc) if x.get("k") == "Match" and x.get("src") == "ForLoopDesugar" and strip(x["scrut"]) is a), None)
+                if loop is not None:
+                    names.add(_for_kind(loop))
+                    break
+            names.add("arg:" + (nm or "?"))
+            if nm in ("from_shape_vec", "from_vec"):
+                names.add("from_shape_vec")
+            break
+        if k == "MethodCall" and any(x is child for x in a["args"]):
+            names.add("arg:" + a["name"])
+            if a["name"] in ("zip", "extend_from_slice", "copy_from_slice", "append"):
+                names.add(a["name"])
+            break
+        if k in ("Ret",) or (k == "Block" and a.get("e") is child) or k in ("If", "Match"):
+            # value of the enclosing block: follows the function's return or an outer binding
+            child = a
+            if k == "Ret":
+                escapes = True
+                break
+            continue
+        break
+    else:
+        escapes = True
+    if child is fn["body"] or (anc and child is anc[0]):
+        escapes = True
+    n2, idx2 = _uses_of(fn, bound) if bound else (set(), False)
+    names |= n2
+    indexed = indexed or idx2
+    if "escapes" in names:
+        names.discard("escapes")
+        escapes = True
+    return names, indexed, escapes
+
+
+def _for_kind(loop):
+    """a `for` loop over the sequence: a body that appends / inserts / writes by index consumes it in order"""
+    for y in walk(loop):
+        if y.get("k") == "MethodCall" and (y["name"].startswith(("push", "append", "insert", "extend")) or y["name"] in ("write", "send")):
+            return "for:ordered-sink"
+        if y.get("k") in ("Assign", "AssignOp") and peel_refs(y["l"]).get("k") == "Index":
+            return "for:ordered-sink"
+    return "for"
+
+
+def sites(fn, facts=None):
     """raw-buffer accesses of ndarray arrays in fn: list of dicts(node, root, verdict, why)"""
     c = fn["crate"]
     out = []
@@ -282,69 +373,7 @@ def sites(fn):
                         why="the layout test before `%s` reads the stride of axis %s only; an array has %d axes and the unconstrained ones may be strided, reversed or transposed" % (n["name"], "/".join(sorted(partial[0])), partial[1]))
             continue
         # (3) how is the buffer consumed
-        bound = set()
-        child = n
-        escapes = False
-        names = set()
-        indexed = False
-        tup_idx = None
-        for a in reversed(anc):
-            k = a.get("k")
-            if k in ("Ref", "Semi") or (k == "Unary" and a["op"] == "*") or (k == "Block" and not a["stmts"] and a.get("e") is child):
-                child = a
-                continue
-            if k == "MethodCall" and a["recv"] is child:
-                names.add(a["name"])
-                child = a
-                continue
-            if k == "Tup" and tup_idx is None and any(x is child for x in a.get("es", [])):
-                # `match (x.as_slice_memory_order(), y.as_slice_mut()) { (Some(a), Some(b)) => .. }`: follow the component
-                tup_idx = next(i for i, x in enumerate(a["es"]) if x is child)
-                child = a
-                continue
-            if k in ("LetStmt", "Let") and a.get("init") is child:
-                for b in pat_bindings(_tuple_component(a["pat"], tup_idx)):
-                    bound.add(b["local"])
-                break
-            if k == "Match" and a["scrut"] is child:
-                for arm in a["arms"]:
-                    for b in pat_bindings(_tuple_component(arm["pat"], tup_idx)):
-                        bound.add(b["local"])
-                break
-            if k == "Index" and a["e"] is child:
-                indexed = True
-                child = a
-                continue
-            if k == "Call" and any(x is child for x in a["args"]):
-                f = strip(a["f"])
-                nm = (c.dfn(f.get("def")) or {}).get("name") if f.get("k") == "Path" else None
-                if nm in ("Some", "Ok"):
-                    child = a
-                    continue
-                names.add("arg:" + (nm or "?"))
-                if nm in ("from_shape_vec", "from_vec"):
-                    names.add("from_shape_vec")
-                break
-            if k == "MethodCall" and any(x is child for x in a["args"]):
-                names.add("arg:" + a["name"])
-                if a["name"] in ("zip", "extend_from_slice", "copy_from_slice", "append"):
-                    names.add(a["name"])
-                break
-            if k in ("Ret",) or (k == "Block" and a.get("e") is child) or k in ("If", "Match"):
-                # value of the enclosing block: follows the function's return or an outer binding
-                child = a
-                if k == "Ret":
-                    escapes = True
-                    break
-                continue
-            break
-        else:
-            escapes = True
-        if child is fn["body"] or (anc and child is anc[0]):
-            escapes = True
-        n2, idx2 = _uses_of(fn, bound) if bound else (set(), False)
-        names |= n2
-        indexed = indexed or idx2
+        names, indexed, escapes = _consumption(fn, c, n, anc)
         site["uses"] = sorted(names)
         sens = sorted(x for x in names if x in SENSITIVE) + (["indexing"] if indexed else [])
         if sens:
@@ -355,6 +384,23 @@ def sites(fn):
                             why="`%s` hands out the elements in memory order for every contiguous layout, and they are then used by position (%s) without a dominating is_standard_layout() test: for column-major, transposed or reversed arrays a position is not (row, column)" % (n["name"], ", ".join(sens)))
             continue
         if escapes:
+            # a private helper that hands the sequence on: look at what its callers in the same crate do with it
+            c_names, c_idx, c_esc, n_calls = set(), False, False, 0
+            for g in c.fns:
+                if g is fn:
+                    continue
+                for m, manc in with_parents(g["body"]):
+                    if m.get("k") == "Call" and strip(m["f"]).get("k") == "Path" and fn["def"] in (strip(m["f"]).get("def"), strip(m["f"]).get("inst")):
+                        n_calls += 1
+                        nm2, ix2, es2 = _consumption(g, c, m, manc)
+                        c_names |= nm2
+                        c_idx = c_idx or ix2
+                        c_esc = c_esc or es2
+            sens2 = sorted(x for x in c_names if x in SENSITIVE) + (["indexing"] if c_idx else [])
+            if n_calls and sens2 and not unknown_guard:
+                site.update(verdict="violation", kind="positional-use",
+                            why="`%s` hands out the elements in memory order for every contiguous layout (reversed and transposed views included); the sequence leaves `%s` and its callers consume it in order (%s) without a dominating is_standard_layout() test" % (n["name"], fn["d"]["name"], ", ".join(sens2)))
+                continue
             site.update(verdict="undecided", kind="escapes", why="the buffer taken with `%s` leaves the function; its use is not visible here" % n["name"])
             continue
         unknown = sorted(x for x in names if x not in INSENSITIVE and not x.startswith("arg:"))
